@@ -820,6 +820,10 @@ func (interp *Interpreter) cfg(root *node, sc *scope, importPath, pkgName string
 					}
 				case src.action == aRecv && !isCommRecvAssign(n):
 					// Assign by reading from a receiving channel.
+					if dest.typ.id() != src.typ.id() {
+						// Skip optimization if the received type doesn't match the assigned one (an interface).
+						break
+					}
 					n.gen = nop
 					src.findex = dest.findex // Set recv address to LHS.
 					dest.typ = src.typ
@@ -2358,7 +2362,7 @@ func (interp *Interpreter) cfg(root *node, sc *scope, importPath, pkgName string
 				n.findex = notInFrame
 			case n.anc.kind == assignStmt && n.anc.action == aAssign && n.anc.nright == 1 && !isCommRecvAssign(n.anc):
 				dest := n.anc.child[childPos(n)-n.anc.nright]
-				if n.action != aRecv && dest.typ != nil && isInterface(dest.typ) && !isInterface(n.typ) {
+				if dest.typ != nil && isInterface(dest.typ) && !isInterface(n.typ) {
 					// Keep the type of the operand and store the result in its own frame
 					// location: the assign operation performs the conversion to the interface type.
 					n.findex = sc.add(n.typ)
